@@ -111,7 +111,7 @@ func c03Check(in layoutInput) (string, string, *gen.Rendered) {
 
 // c03DrawInput draws model, file kind and layout.
 func c03DrawInput(rt *rapid.T) (layoutInput, *gen.Rendered) {
-	m := gen.DSLModel(rt, gen.DSLOpts{Rich: true, Conditions: true, MultiLine: true})
+	m := gen.DSLModel(rt, gen.DSLOpts{Rich: true, Conditions: true, MultiLine: true, Scale: true})
 	in := layoutInput{Model: m}
 	if rapid.IntRange(0, 3).Draw(rt, "modular") == 0 {
 		in.Module = gen.Ident(rt, gen.IdentKeywordOK, true, "module")
